@@ -57,7 +57,7 @@ def main():
             viol = [l for l in outc.splitlines() if l.startswith("VIOLATION")]
             obl = [l.strip() for l in outc.splitlines() if l.strip().startswith("obligation ")]
             results[p] = dict(exit=rcc, violations=len(viol), replayed=sum(1 for l in viol if "no-failing-input-found" not in l),
-                              first_obligations=obl[:3], summary=outc.strip().splitlines()[-1] if outc.strip() else "")
+                              first_obligations=obl[:3], summary=([l for l in outc.strip().splitlines() if l.startswith(p + " [")] or outc.strip().splitlines()[-1:] or [""])[-1])
             print(p, results[p]["exit"], results[p]["summary"])
             for l in obl[:3]:
                 print("   ", l[:200])
